@@ -53,6 +53,7 @@ broadcasting of arrays of different shapes, a NaN or a field of a collection as 
 are the empty epoch.
 -/
 import Midgard.Proofs.DatasetExtendContent
+import Midgard.Proofs.DatasetExtendFlat
 
 namespace Midgard.Props.C09
 open Midgard.Dataset
@@ -267,6 +268,118 @@ theorem pad_of_second_name_served_from_memo (front : Bool) (n : Nat) (nm : Strin
     ∃ s', padField front n (.leaf nm k o no u l) s = .ok (.leaf nm k r (objLen s'.heap r) u l, s') ∧
       s'.find o = some r :=
   padField_served_from_memo front n nm k hk o no u l s r ob hob hkb hit
+
+/-! ### the memo invariant of `extend` (flat kinds) and the field-level steps under it
+
+`MemoSem us h0 n m W s` (`Proofs/DatasetExtendInv.lean`): `W` is the set of units of work (`Item`: a leaf of self with the
+leaf of the same name of other / a leaf only self has / a leaf only other has), `Item.exp` is what the table demands of an
+item (rows and scale/format, read off the heap `h0` before the `extend`); the invariant says: memo keys are arrays that
+exist, the heap only grew, **every memo entry under an array of an item holds what the table demands of that item**, and
+**the arrays of one item are registered to one new array**.  Hypotheses on `W`: `Consistent` (two items registered under
+one array demand the same column) and `ObjsAgree` (they are registered under the same arrays) — in object terms:
+`splitSharing = false`, common names share arrays alike in both datasets, shared sigma arrays have equal units, no array
+belongs to both datasets at different places.  The theorems below are the loop body of the dataset-level theorems
+`extend_refines_records` / `extend_keeps_sharing` (the loops over the fields are not lifted yet, see
+`Proofs/DatasetExtendNOTES.md`). -/
+
+/-- one `insert` of a flat memo kind under the invariant: right content whatever the memo answers (hit on `a`, hit on `b`,
+miss), invariant kept, the result registered under an array of the item, earlier entries untouched -/
+theorem insert_under_memo_invariant (us : Units) (h0 : Heap) (n m : Nat) (W : Item → Prop) (hI : Items h0 W)
+    (hC : Consistent us h0 n m W) (hO : ObjsAgree W) (it : Item) (hit : W it) (hnp : it.kind.isPlain = false)
+    (fuel a pos b : Nat) (s : St) (oa ob : Obj) (ms : MemoSem us h0 n m W s) (hcv : s.conv = us.conv)
+    (ha : a ∈ it.objs) (hoa : s.heap[a]? = some oa) (hob : s.heap[b]? = some ob) (hf : oa.kind.flat = true)
+    (hb : b ∈ it.objs ∨ (s.find b = none ∧ h0.length ≤ b)) (hsub : ∀ x ∈ it.objs, x = a ∨ x = b)
+    (hexp : it.exp us h0 n m = some (insertAt oa.rows pos (convRows us.conv oa.tag ob), oa.tag))
+    (r : Nat) (s' : St) (h : insertObj (fuel + 1) a pos b s = .ok (r, s')) :
+    IsRes s'.heap r (insertAt oa.rows pos (convRows us.conv oa.tag ob), oa.tag) ∧ HeapExt s.heap s'.heap ∧
+      MemoSem us h0 n m W s' ∧ s'.conv = us.conv ∧ (∃ o ∈ it.objs, s'.find o = some r) ∧ PersistW W s s' :=
+  insert_step us h0 n m W hI hC hO it hit hnp fuel a pos b s oa ob ms hcv ha hoa hob hf hb hsub hexp r s' h
+
+/-- a time / time-delta leaf of self extended by the leaf of other under the invariant: the new leaf holds the epochs of
+self followed by the converted epochs of other (`Item.exp`), in the scale / format of self, `num_obs` = its length, it
+is registered in the memo; the invariant is kept -/
+theorem extend_time_leaf_under_invariant (us : Units) (h0 : Heap) (n m : Nat) (W : Item → Prop) (hI : Items h0 W)
+    (hC : Consistent us h0 n m W) (hO : ObjsAgree W) (nm : String) (k : Kind) (hk : k = .time ∨ k = .timeDelta)
+    (o no : Nat) (u : Option (List String)) (l : Nat)
+    (nm2 : String) (o2 no2 : Nat) (u2 : Option (List String)) (l2 : Nat) (s : St) (f' : Field) (s' : St)
+    (ms : MemoSem us h0 n m W s) (hcv : s.conv = us.conv) (hit : W (.both k o u o2 u2))
+    (oa : Obj) (hoa : h0[o]? = some oa) (hno : no = oa.rows.length)
+    (h : extendLeaf us nm k o no u l (.leaf nm2 k o2 no2 u2 l2) s = .ok (f', s')) :
+    LeafPost us h0 n m s' (.both k o u o2 u2) nm k u l f' ∧ HeapExt s.heap s'.heap ∧
+      MemoSem us h0 n m W s' ∧ s'.conv = us.conv ∧ PersistW W s s' :=
+  extendLeaf_time_step us h0 n m W hI hC hO nm k hk o no u l nm2 o2 no2 u2 l2 s f' s' ms hcv hit oa hoa hno h
+
+/-- a sigma leaf likewise (values and sigmas of other times the unit factors appended) -/
+theorem extend_sigma_leaf_under_invariant (us : Units) (h0 : Heap) (n m : Nat) (W : Item → Prop) (hI : Items h0 W)
+    (hC : Consistent us h0 n m W) (hO : ObjsAgree W) (nm : String)
+    (o no : Nat) (u : Option (List String)) (l : Nat)
+    (nm2 : String) (o2 no2 : Nat) (u2 : Option (List String)) (l2 : Nat) (s : St) (f' : Field) (s' : St)
+    (ms : MemoSem us h0 n m W s) (hcv : s.conv = us.conv) (hit : W (.both .sigma o u o2 u2))
+    (oa ob0 : Obj) (hoa : h0[o]? = some oa) (hob0 : h0[o2]? = some ob0) (hno : no = oa.rows.length)
+    (h : extendLeaf us nm .sigma o no u l (.leaf nm2 .sigma o2 no2 u2 l2) s = .ok (f', s')) :
+    LeafPost us h0 n m s' (.both .sigma o u o2 u2) nm .sigma u l f' ∧ HeapExt s.heap s'.heap ∧
+      MemoSem us h0 n m W s' ∧ s'.conv = us.conv ∧ PersistW W s s' :=
+  extendLeaf_sigma_step us h0 n m W hI hC hO nm o no u l nm2 o2 no2 u2 l2 s f' s' ms hcv hit oa ob0 hoa hob0 hno h
+
+/-- the padding of a time / time-delta / sigma leaf only one dataset has (`front = false`: only self, `m` empty values at
+the end; `front = true`: only other, `n` in front) under the invariant -/
+theorem pad_leaf_under_invariant (us : Units) (h0 : Heap) (n m : Nat) (W : Item → Prop) (hI : Items h0 W)
+    (hC : Consistent us h0 n m W) (hO : ObjsAgree W) (front : Bool) (nm : String) (k : Kind)
+    (hk : k = .time ∨ k = .timeDelta ∨ k = .sigma)
+    (o no : Nat) (u : Option (List String)) (l : Nat) (s : St) (f' : Field) (s' : St)
+    (ms : MemoSem us h0 n m W s) (hcv : s.conv = us.conv)
+    (hit : W (if front then .otherOnly k o else .selfOnly k o))
+    (oa : Obj) (hoa : h0[o]? = some oa) (hno : front = false → no = oa.rows.length)
+    (cnt : Nat) (hcnt : cnt = if front then n else m)
+    (h : padField front cnt (.leaf nm k o no u l) s = .ok (f', s')) :
+    LeafPost us h0 n m s' (if front then .otherOnly k o else .selfOnly k o) nm k u l f' ∧ HeapExt s.heap s'.heap ∧
+      MemoSem us h0 n m W s' ∧ s'.conv = us.conv ∧ PersistW W s s' :=
+  padField_memo_step us h0 n m W hI hC hO front nm k hk o no u l s f' s' ms hcv hit oa hoa hno cnt hcnt h
+
+/-- **`extend_refines_records`, datasets of flat leaf fields** (bool, float, text, sigma, time, time delta at the top
+level; self not empty): under `Consistent` and `ObjsAgree` of the units of work `itemsOf d.fields e.fields` — in object
+terms: no array is held under a name the other dataset lacks and under a name it has (`splitSharing = false`), common
+names share arrays alike in both datasets, shared sigma arrays have equal units, no array belongs to both datasets at
+different places — **every field of the result holds exactly what the table demands** of its unit of work: rows
+(`self ++ converted other`, `self ++ m empty`, `n empty ++ other`) and scale/format of `Item.exp`, `num_obs` = their
+number; every name of self is still there; the declared count is `n + m`.
+Full statement (open): the same with nested collections (same induction, mutual with `extendField`) and with the
+position kinds (attachments: `insert_step` by the fuel induction of `insertObj_spec`); see
+`Proofs/DatasetExtendNOTES.md`. -/
+theorem extend_refines_records_flat_partial (us : Units) (h : Heap) (d e : DS) (h' : Heap) (d' : DS)
+    (hok : dsExtend us h d e = .ok (h', d'))
+    (hn : d.numObs ≠ 0)
+    (hS : ∀ f ∈ d.fields, FlatLeaf h d.numObs f) (hE : ∀ g ∈ e.fields, FlatLeaf h e.numObs g)
+    (hkS : ∀ f ∈ d.fields, KindsOK h f) (hkE : ∀ g ∈ e.fields, KindsOK h g)
+    (ndS : (names d.fields).Nodup) (ndE : (names e.fields).Nodup)
+    (hC : Consistent us h d.numObs e.numObs (itemsOf d.fields e.fields))
+    (hO : ObjsAgree (itemsOf d.fields e.fields)) :
+    (∀ x ∈ d'.fields, ∃ it nm k u l r no' ex, itemsOf d.fields e.fields it ∧ x = .leaf nm k r no' u l ∧
+        it.exp us h d.numObs e.numObs = some ex ∧ IsRes h' r ex ∧ no' = ex.1.length) ∧
+      (∀ x ∈ names d.fields, x ∈ names d'.fields) ∧ d'.numObs = d.numObs + e.numObs := by
+  obtain ⟨s', hs', _, hall, hsub, hno, _⟩ := dsExtend_flat us h d e h' d' hok hn hS hE hkS hkE ndS ndE hC hO
+  refine ⟨?_, hsub, hno⟩
+  intro x hx
+  obtain ⟨it, nm, k, u, l, hw, ⟨r, no', ex, h1, h2, h3, h4, _⟩, _⟩ := hall x hx
+  exact ⟨it, nm, k, u, l, r, no', ex, hw, h1, h2, hs' ▸ h3, h4⟩
+
+/-- **`extend_keeps_sharing`, datasets of flat leaf fields**: two fields of self that hold ONE array (of a kind whose
+`insert` uses the memo: time, time delta, sigma) hold ONE array after `Dataset.extend` (same hypotheses; full statement
+open as above) -/
+theorem extend_keeps_sharing_flat_partial (us : Units) (h : Heap) (d e : DS) (h' : Heap) (d' : DS)
+    (hok : dsExtend us h d e = .ok (h', d'))
+    (hn : d.numObs ≠ 0)
+    (hS : ∀ f ∈ d.fields, FlatLeaf h d.numObs f) (hE : ∀ g ∈ e.fields, FlatLeaf h e.numObs g)
+    (hkS : ∀ f ∈ d.fields, KindsOK h f) (hkE : ∀ g ∈ e.fields, KindsOK h g)
+    (ndS : (names d.fields).Nodup) (ndE : (names e.fields).Nodup)
+    (hC : Consistent us h d.numObs e.numObs (itemsOf d.fields e.fields))
+    (hO : ObjsAgree (itemsOf d.fields e.fields))
+    (nm1 nm2 : String) (k1 k2 : Kind) (o no1 no2 : Nat) (u1 u2 : Option (List String)) (l1 l2 : Nat)
+    (h1 : Field.leaf nm1 k1 o no1 u1 l1 ∈ d.fields) (h2 : Field.leaf nm2 k2 o no2 u2 l2 ∈ d.fields)
+    (hnp : k1.isPlain = false) :
+    ∃ x1 x2 r no1' no2' k1' k2' u1' u2' l1' l2', x1 ∈ d'.fields ∧ x2 ∈ d'.fields ∧
+      x1 = .leaf nm1 k1' r no1' u1' l1' ∧ x2 = .leaf nm2 k2' r no2' u2' l2' :=
+  dsExtend_flat_sharing us h d e h' d' hok hn hS hE hkS hkE ndS ndE hC hO nm1 nm2 k1 k2 o no1 no2 u1 u2 l1 l2 h1 h2 hnp
 
 /-- the sort key of a time field is the VALUE the field holds (third component of a row, after jd1 and jd2), not a
 number derived from the Julian date: epochs that are different in the field have different keys -/
@@ -543,6 +656,26 @@ example : splitSharing [.leaf "sent" .time 0 2 none 3, .leaf "received" .time 0 
 example : ((insertObj 3 0 1 1 { heap := [exGps, exUtc], conv := exConv }).toOption.bind (fun p => p.2.find 0)) = some 2 := by
   decide +kernel
 
+/-- the hypotheses of the `…_under_invariant` theorems are satisfiable: one item (GPS/jd array 0 of self, UTC/mjd array 1 of
+other), the empty memo at the start of an `extend` -/
+
+def exW : Item → Prop := fun it => it = .both .time 0 none 1 none
+example : Items [exGps, exUtc] exW := ⟨by
+  intro it hit o ho
+  cases hit
+  simp only [Item.objs, show (Kind.time == Kind.sigma) = false from rfl, Bool.false_eq_true, if_false,
+    List.mem_cons, List.not_mem_nil, or_false] at ho
+  rcases ho with rfl | rfl
+  · exact ⟨exGps, rfl, rfl⟩
+  · exact ⟨exUtc, rfl, rfl⟩⟩
+example (us : Units) (n m : Nat) : Consistent us [exGps, exUtc] n m exW := by
+  intro i j hi hj _ _ _; cases hi; cases hj; rfl
+example : ObjsAgree exW := by
+  intro i j hi hj _ _ _ x; cases hi; cases hj; rfl
+example (us : Units) (n m : Nat) : MemoSem us [exGps, exUtc] n m exW { heap := [exGps, exUtc], conv := us.conv } :=
+  ⟨by intro k v h; simp at h, HeapExt.refl _, by intro it _ _ o _ v h; simp [St.find] at h,
+   by intro it _ _ o _ o' _ v v' h; simp [St.find] at h⟩
+
 /-- does the history run? (executable) -/
 def runs : W → List Op → Bool
   | _, [] => true
@@ -593,6 +726,12 @@ end Midgard.Props.C09
 #print axioms Midgard.Props.C09.extend_sigma_field_content
 #print axioms Midgard.Props.C09.extend_second_name_served_from_memo
 #print axioms Midgard.Props.C09.pad_of_second_name_served_from_memo
+#print axioms Midgard.Props.C09.insert_under_memo_invariant
+#print axioms Midgard.Props.C09.extend_time_leaf_under_invariant
+#print axioms Midgard.Props.C09.extend_sigma_leaf_under_invariant
+#print axioms Midgard.Props.C09.pad_leaf_under_invariant
+#print axioms Midgard.Props.C09.extend_refines_records_flat_partial
+#print axioms Midgard.Props.C09.extend_keeps_sharing_flat_partial
 #print axioms Midgard.Props.C09.extend_float_converts_units
 #print axioms Midgard.Props.C09.sort_is_stable_permutation
 #print axioms Midgard.Props.C09.sort_refines
